@@ -145,6 +145,8 @@ pub struct SubStats {
 }
 
 pub struct Failure {
+    /// path of the replay file if the violation has already been written and printed
+    pub reported: Option<String>,
     pub sub: String,
     pub clause: String,
     pub detail: String,
@@ -241,6 +243,7 @@ impl Ctx {
         });
         let fails: Mutex<Vec<Failure>> = Mutex::new(Vec::new());
         let prop = self.prop.clone();
+        let known = self.known.clone();
         let sub_seed = {
             let mut h = DefaultHasher::new();
             s.name().hash(&mut h);
@@ -254,6 +257,7 @@ impl Ctx {
                 let agg = &agg;
                 let fails = &fails;
                 let prop = &prop;
+                let known = &known;
                 sc.spawn(move || {
                     crate::core::IS_DRIVER.with(|d| d.set(true));
                     let cfg = Config {
@@ -358,12 +362,41 @@ impl Ctx {
                                 .clone()
                                 .unwrap_or(("unknown".into(), "flaky: minimal case passed on re-run".into(), "unknown".into())),
                         };
+                        let case = serde_json::to_value(&minimal).unwrap_or(Value::Null);
+                        // report at once (another worker of this sub-check may hang on the same
+                        // defect, in which case the process ends through the watchdog)
+                        let mut reported = None;
+                        if !known.iter().any(|(p, sig, _)| p == prop && *sig == signature) {
+                            let mut fl = fails.lock().unwrap();
+                            if fl.is_empty() {
+                                let body = json!({
+                                    "property": prop.as_str(),
+                                    "engine": ENGINE.get().copied().unwrap_or("simlab"),
+                                    "sub": s.name(),
+                                    "clause": clause,
+                                    "signature": signature,
+                                    "detail": detail,
+                                    "case": case,
+                                });
+                                let vd = verif_dir();
+                                let _ = std::fs::create_dir_all(format!("{}/failures", vd));
+                                let path = format!("{}/failures/{}-{}-{:016x}.json", vd, prop, s.name(), hash_json(&body));
+                                let _ = std::fs::write(&path, serde_json::to_string_pretty(&body).unwrap());
+                                eprintln!("[{} {}] FAILED clause={} detail={}", prop, s.name(), clause, detail);
+                                println!("VIOLATION property={} replay={}", prop, path);
+                                use std::io::Write;
+                                let _ = std::io::stdout().flush();
+                                reported = Some(path);
+                            }
+                            drop(fl);
+                        }
                         fails.lock().unwrap().push(Failure {
+                            reported,
                             sub: s.name().to_string(),
                             clause,
                             detail,
                             signature,
-                            case: serde_json::to_value(&minimal).unwrap_or(Value::Null),
+                            case,
                         });
                     } else if let Err(TestError::Abort(r)) = res {
                         eprintln!("[{}] worker aborted: {}", s.name(), r);
@@ -409,7 +442,7 @@ impl Ctx {
         self.subs.push(a);
         // Keep at most one failure per sub (the one with the smallest case).
         let mut fl = fails.into_inner().unwrap();
-        fl.sort_by_key(|f| f.case.to_string().len());
+        fl.sort_by_key(|f| (f.reported.is_none(), f.case.to_string().len()));
         if let Some(f) = fl.into_iter().next() {
             self.failures.push(f);
         }
@@ -449,6 +482,11 @@ impl Ctx {
                     self.known_hit.push(line.clone());
                     out_lines.push(line);
                 }
+                continue;
+            }
+            if let Some(path) = &f.reported {
+                out_lines.retain(|l: &String| !l.ends_with(path.as_str()));
+                violations += 1;
                 continue;
             }
             let body = json!({
